@@ -195,8 +195,8 @@ fn run_tokio(c: &UdpCase, mode: &Mode) -> Observed {
 pub fn judge(c: &UdpCase, ev: &mut Local) -> Result<(), Fail> {
     let mode = if c.compressed { Mode::Compressed } else { Mode::Uncompressed };
     let want = expected(c, &mode);
-    let codec = Codec::new(mode.clone());
-    let want_out: Vec<Vec<u8>> = c.writes.iter().filter_map(|f| decode_one(f, &mode).ok()).filter_map(|p| codec.encode(&p).ok().map(|b| b.to_vec())).collect();
+    // a fresh codec per packet: the expected datagrams are independent encodings
+    let want_out: Vec<Vec<u8>> = c.writes.iter().filter_map(|f| decode_one(f, &mode).ok()).filter_map(|p| Codec::new(mode.clone()).encode(&p).ok().map(|b| b.to_vec())).collect();
     let m = mode_name(&mode);
     for (which, o) in [("blocking", run_blocking(c, &mode)), ("tokio", run_tokio(c, &mode))] {
         if let Some(e) = &o.error {
